@@ -697,19 +697,31 @@ def toCold : Nat → List AChunk → List CChunk → List AChunk × List CChunk
         else toCold f rest (cold ++ [oldest.compress])
     else (hot, cold)
 
+/-- `hot_chunks.last().is_some_and(|c| !c.is_full())` -/
+def lastHasRoom (hot : List AChunk) : Bool :=
+  match hot.getLast? with
+  | some c => decide (c.entries.length < c.capacity)
+  | none => false
+
+/-- the hot chunks of `compact` before any of them is moved to cold storage: the last chunk is
+reopened if it has room, the delta buffer is drained into chunks, a non-empty last chunk is kept -/
+def compactHot (hot : List AChunk) (delta : List Entry) (cap : Nat) : List AChunk :=
+  if (drainLoop cap (if lastHasRoom hot then hot.dropLast else hot)
+        (if lastHasRoom hot then hot.getLast?.getD (AChunk.mk [] cap) else AChunk.mk [] cap) delta).2.entries.length > 0
+  then (drainLoop cap (if lastHasRoom hot then hot.dropLast else hot)
+        (if lastHasRoom hot then hot.getLast?.getD (AChunk.mk [] cap) else AChunk.mk [] cap) delta).1 ++
+       [(drainLoop cap (if lastHasRoom hot then hot.dropLast else hot)
+        (if lastHasRoom hot then hot.getLast?.getD (AChunk.mk [] cap) else AChunk.mk [] cap) delta).2]
+  else (drainLoop cap (if lastHasRoom hot then hot.dropLast else hot)
+        (if lastHasRoom hot then hot.getLast?.getD (AChunk.mk [] cap) else AChunk.mk [] cap) delta).1
+
 /-- `compact` -/
 def AList.compact (l : AList) (cap : Nat) : AList :=
   if l.delta.isEmpty then l
   else
-    let lastHasRoom := match l.hot.getLast? with
-      | some c => decide (c.entries.length < c.capacity)
-      | none => false
-    let hot0 := if lastHasRoom then l.hot.dropLast else l.hot
-    let cur0 := if lastHasRoom then (l.hot.getLast?.getD (AChunk.mk [] cap)) else AChunk.mk [] cap
-    let (hot1, cur1) := drainLoop cap hot0 cur0 l.delta
-    let hot2 := if cur1.entries.length > 0 then hot1 ++ [cur1] else hot1
-    let (hot3, cold3) := toCold hot2.length hot2 l.cold
-    { l with hot := hot3, cold := cold3, delta := [] }
+    { l with hot := (toCold (compactHot l.hot l.delta cap).length (compactHot l.hot l.delta cap) l.cold).1,
+             cold := (toCold (compactHot l.hot l.delta cap).length (compactHot l.hot l.delta cap) l.cold).2,
+             delta := [] }
 
 /-- `freeze_all` -/
 def AList.freezeAll (l : AList) : AList :=
